@@ -192,6 +192,9 @@ type World struct {
 	Extra     []*Front
 	stepMu    sync.Mutex
 	RemoteSrv map[string]*Front
+	// FileRemotes: bare remotes reached through file:// URLs. Their LFS store
+	// is <remote>/lfs/objects, written by git-lfs's own standalone agent.
+	FileRemotes map[string]bool
 }
 
 // StepRec is one executed process.
@@ -256,6 +259,73 @@ func (w *World) AddServer() *Front {
 	}
 	w.Extra = append(w.Extra, fr)
 	return fr
+}
+
+// StoreKey names the object store behind a bare remote (a server, or the
+// remote's own directory for file:// remotes).
+func (w *World) StoreKey(remote string) string {
+	if w.FileRemotes[remote] {
+		return "file:" + remote
+	}
+	return "http:" + w.FrontFor(remote).Base
+}
+
+// StoreGet reads one object of the store behind a remote.
+func (w *World) StoreGet(remote, oid string) ([]byte, bool) {
+	if w.FileRemotes[remote] {
+		b, err := os.ReadFile(ObjectPath(remote, oid))
+		return b, err == nil
+	}
+	fr := w.FrontFor(remote)
+	fr.mu.Lock()
+	defer fr.mu.Unlock()
+	b, ok := fr.Srv.Store[oid]
+	return b, ok
+}
+
+// StorePut places an object in the store behind a remote (harness set-up).
+func (w *World) StorePut(remote, oid string, data []byte) {
+	if w.FileRemotes[remote] {
+		p := ObjectPath(remote, oid)
+		os.MkdirAll(filepath.Dir(p), 0755)
+		os.WriteFile(p, data, 0644)
+		return
+	}
+	fr := w.FrontFor(remote)
+	fr.mu.Lock()
+	fr.Srv.Store[oid] = data
+	fr.mu.Unlock()
+}
+
+// StoreDelete removes an object from the store behind a remote.
+func (w *World) StoreDelete(remote, oid string) {
+	if w.FileRemotes[remote] {
+		os.Remove(ObjectPath(remote, oid))
+		return
+	}
+	fr := w.FrontFor(remote)
+	fr.mu.Lock()
+	delete(fr.Srv.Store, oid)
+	fr.mu.Unlock()
+}
+
+// StoreOids lists the store behind a remote.
+func (w *World) StoreOids(remote string) []string {
+	var out []string
+	if w.FileRemotes[remote] {
+		for o := range LocalObjects(remote) {
+			out = append(out, o)
+		}
+	} else {
+		fr := w.FrontFor(remote)
+		fr.mu.Lock()
+		for o := range fr.Srv.Store {
+			out = append(out, o)
+		}
+		fr.mu.Unlock()
+	}
+	sort.Strings(out)
+	return out
 }
 
 // FrontFor returns the LFS server that serves a bare remote.
@@ -409,6 +479,9 @@ func (w *World) ConfigureClone(dir string, settings map[string]string) {
 	}
 	sort.Strings(keys)
 	for _, k := range keys {
+		if base[k] == "" {
+			continue // an empty value leaves the key unset
+		}
 		w.MustGit(dir, "config", k, base[k])
 	}
 }
